@@ -214,6 +214,9 @@ class Copeland:
         """
         wins = pairwise_wins(votes)
         scores = self.scores(wins)
+        for pair in votes:
+            for cand in pair:
+                scores.setdefault(cand, 0)    # only ties: zero score
         best = votelib.evaluate.core.get_n_best(scores, n_seats)
         if self.second_order and votelib.evaluate.core.Tie.any(best):
             return self.break_second_order(best, scores, wins)
